@@ -41,11 +41,30 @@ fn gen_u64(rng: &mut Prng) -> u64 {
 
 fn gen_batch_line(rng: &mut Prng) -> String {
     let mut toks = vec!["batch.encode".to_string(), gen_u64(rng).to_string()];
-    for _ in 0..rng.below(12) {
-        if rng.chance(3, 4) {
-            toks.push(format!("p:{}:{}", hx(&gen_bytes(rng, true)), hx(&gen_bytes(rng, true))));
-        } else {
-            toks.push(format!("d:{}", hx(&gen_bytes(rng, false))));
+    // operation counts around the lengths at which the count's varint grows by a byte
+    let many: Option<u64> = match rng.below(40) {
+        0..=3 => Some(*rng.pick(&[126u64, 127, 128, 129, 130, 255, 256, 300])),
+        4 => Some(*rng.pick(&[16_383u64, 16_384, 16_385])),
+        _ => None,
+    };
+    match many {
+        Some(n) => {
+            for i in 0..n {
+                if i % 5 == 4 {
+                    toks.push(format!("d:{:02x}", i % 251));
+                } else {
+                    toks.push(format!("p:{:02x}:{:02x}", i % 251, i % 7));
+                }
+            }
+        }
+        None => {
+            for _ in 0..rng.below(12) {
+                if rng.chance(3, 4) {
+                    toks.push(format!("p:{}:{}", hx(&gen_bytes(rng, true)), hx(&gen_bytes(rng, true))));
+                } else {
+                    toks.push(format!("d:{}", hx(&gen_bytes(rng, false))));
+                }
+            }
         }
     }
     toks.join(" ")
@@ -103,7 +122,7 @@ fn damage(rng: &mut Prng, bytes: &[u8]) -> Vec<u8> {
 }
 
 pub fn rule() -> &'static str {
-    "write-batch records and manifest records: generated records (sequence numbers and numbers 0 .. 2^64-1, keys/values of 0 .. 20 000 bytes, 0-11 operations; 0-5 deleted files with duplicates, 0-3 new files, compaction pointers, optional fields present/absent) encoded by the real code and by the model (batches byte for byte; manifest records through decoding, because the real encoder iterates a hash set), decoded by both; then damaged encodings (truncated, extended, bit flips, 0x00/0x7f/0x80/0xff bytes, a byte removed or inserted): both decoders must give the same answer, error or record. Non-trivial = the record has at least one operation / field; distinct by case text."
+    "write-batch records and manifest records: generated records (sequence numbers and numbers 0 .. 2^64-1, keys/values of 0 .. 20 000 bytes, 0-11 operations, and batches of 126-130 / 255-300 / 16 383-16 385 operations (the lengths at which the count's varint grows); 0-5 deleted files with duplicates, 0-3 new files, compaction pointers, optional fields present/absent) encoded by the real code and by the model (batches byte for byte; manifest records through decoding, because the real encoder iterates a hash set), decoded by both; then damaged encodings (truncated, extended, bit flips, 0x00/0x7f/0x80/0xff bytes, a byte removed or inserted): both decoders must give the same answer, error or record. Non-trivial = the record has at least one operation / field; distinct by case text."
 }
 
 fn one(kind: &str, line: &str, rng: &mut Prng, drv: &mut Drv, rep: &mut Report) {
@@ -145,6 +164,11 @@ fn one(kind: &str, line: &str, rng: &mut Prng, drv: &mut Drv, rep: &mut Report) 
         rep.count(if real == "error" { "codec.decodes.rejected" } else { "codec.decodes.accepted" });
         if real == "PANIC" {
             rep.fail("oracle", "codec:decoder-panics", &format!("the {kind} decoder panics on {}", hx(&b)), &format!("codec {req}"));
+            return;
+        }
+        if round == 0 && real == "error" {
+            // what the encoder wrote is what recovery has to read back
+            rep.fail("oracle", if kind == "batch" { "c02:wal-record-written-by-the-encoder-is-rejected-by-the-decoder" } else { "c02:manifest-record-written-by-the-encoder-is-rejected-by-the-decoder" }, &format!("the {kind} decoder rejects an intact record produced by the encoder ({} bytes): recovery cannot read back what was acknowledged", b.len()), &format!("codec {line}"));
             return;
         }
         if real != model {
